@@ -97,6 +97,55 @@ def okind(o):
     return o if isinstance(o, str) else next(iter(o))
 
 
+def _seg_tokens(calls):
+    evs = []
+    for c in calls:
+        if not isinstance(c, dict):
+            continue
+        if "c" in c:
+            evs.append([1, c["c"]])
+        elif "ce" in c:
+            evs.append([2, c["ce"]])
+        elif "d" in c:
+            evs.append([3, c["d"]])
+        elif "de" in c:
+            evs.append([4, c["de"]])
+    t = [len(evs)]
+    for e in evs:
+        t += e
+    return t
+
+
+def judge_later_solves(recs):
+    """exactness of the 2nd, 3rd .. solve of multi-solve runs: run['exact_next'] = {solve index: True/False/None}"""
+    lines = []
+    for i, r in enumerate(recs):
+        ut = vlib.tok_universe(r["case"]["u"])
+        for j, run in enumerate(r["runs"]):
+            if len(run["solves"]) < 2:
+                continue
+            segs, cur = [], []
+            for c in run["calls"]:
+                if c == "n":
+                    segs.append(cur)
+                    cur = []
+                else:
+                    cur.append(c)
+            segs.append(cur)
+            for k in range(1, min(len(segs), len(run["solves"]))):
+                if okind(run["solves"][k]["outcome"]) != "sat":
+                    continue
+                prev = [c for seg in segs[:k] for c in seg]
+                lines.append(f"exactn {i}.{j}.{k} " + vlib.toks(ut, vlib.tok_problem(run["solves"][k]["p"]), _seg_tokens(prev), _seg_tokens(segs[k])))
+    out = vlib.oracle(lines)
+    for key, v in out.items():
+        if v.startswith("error"):
+            raise vlib.CheckError("oracle error: " + v)
+        i, j, k = [int(x) for x in key.split(".")]
+        run = recs[i]["runs"][j]
+        run.setdefault("exact_next", {})[k] = None if v == "none" else v == "1"
+
+
 def replay_obj(r, run):
     return {"case": r["case"], "run": {"label": run["label"], "mode": run["mode"], "solves": run["solves"], "sched": run.get("sched"),
                                        "calls": run["calls"][:400]},
